@@ -1,3 +1,166 @@
-(* C19 — placeholder while the pipeline is brought up *)
-From MptV Require Import C19.IterModel C19.IterSpec.
-Example C19_placeholder : True. Proof. exact I. Qed.
+(* C19 — Value generators follow the iterator protocol and their formulas.
+   This file holds only the property theorems (each closed by [exact] of a lemma
+   proved elsewhere), their non-vacuity examples and Print Assumptions.
+
+   Reading guide.
+   [src] is the mechanism state of one iterator (IterModel.v, transcribed from
+   iterator_linear/factor/boundary/poly/values.c, iterator_string.c, meta_buffer.c):
+   pos/elem counters, the running product of the factor iterator, the cached value
+   of the polynomial iterator, text offsets of the value list, slice offsets of the
+   buffer iterators.  [it_value/it_advance/it_reset/it_clone] are the vtable calls,
+   [it_walk] is the documented loop of examples/iter.c.  All formulas use the
+   arithmetic [rnd : Q -> fv]; every theorem holds for EVERY [rnd] (binary64 rounding,
+   exact arithmetic, anything), counts are in N and unbounded.
+   [abs s] (IterSpec.v) is the cursor the state stands for: the denoted sequence
+   ([d_at] by index for counted sources, an explicit element list for texts and
+   buffers) and a position; [remaining c] is what is still to come, [denoted c] the
+   whole sequence (what remains after a reset).  [inv] is the invariant every state
+   produced by a constructor and any calls satisfies (pos <= elem, running product =
+   closed product, cache = value of the current position, text offset on the chain of
+   parsed numbers, slice = one segment of the buffer).
+   [nostr s]: every kind except the text iterator of iterator_string.c;
+   [numeric s]: the kinds whose elements are numbers. *)
+From Coq Require Import ZArith NArith QArith List Bool.
+From MptV Require Import C19.IterModel C19.IterSpec C19.IterProofs C19.IterText C19.IterRefine
+  C19.IterClosed C19.IterGrammar.
+Import ListNotations.
+
+(* The documented loop - read the current value, advance, stop when advance reports
+   no further element - started anywhere yields exactly the elements still to come,
+   in order, and stops: cleanly ([WDone], nothing remains) or, for a value list
+   followed by unreadable text, with the refusal of the last advance. *)
+Theorem C19_walk_visits_exactly :
+  forall (rnd : Q -> fv) fuel s, inv rnd s -> numeric s = true ->
+    (length (remaining rnd (abs s)) <= fuel)%nat -> remaining rnd (abs s) <> [] ->
+    let '(l, e, s') := it_walk rnd fuel s [] in
+    map velem l = remaining rnd (abs s) /\ inv rnd s' /\
+    (if s_bad (abs s) then exists c, e = WAdvErr c /\ (c < 0)%Z
+     else e = WDone /\ remaining rnd (abs s') = []).
+Proof. exact walk_visits_exactly. Qed.
+
+Theorem C19_walk_of_nothing :
+  forall (rnd : Q -> fv) fuel s, inv rnd s -> numeric s = true -> remaining rnd (abs s) = [] ->
+    it_walk rnd (S fuel) s [] = ([], WNoValue, s).
+Proof. exact walk_empty. Qed.
+
+(* Past the end: no value, advancing is refused with an error code, the state is unchanged. *)
+Theorem C19_past_end_reported :
+  forall (rnd : Q -> fv) s, inv rnd s -> nostr s = true -> remaining rnd (abs s) = [] ->
+    it_value rnd s = (VNone, s) /\ exists c, (c < 0)%Z /\ it_advance rnd s = (c, s).
+Proof. exact past_end_reported. Qed.
+
+(* Reset succeeds (non-negative result) from every reachable state and puts the whole
+   denoted sequence ahead again; value/advance never change what is denoted. *)
+Theorem C19_reset_replays :
+  forall (rnd : Q -> fv) s, inv rnd s -> nostr s = true ->
+    let (r, s') := it_reset s in
+    (0 <= r)%Z /\ inv rnd s' /\ nostr s' = true /\
+    remaining rnd (abs s') = denoted rnd (abs s) /\ denoted rnd (abs s') = denoted rnd (abs s) /\
+    s_bad (abs s') = s_bad (abs s).
+Proof. exact reset_replays. Qed.
+
+Theorem C19_denoted_stable :
+  forall (rnd : Q -> fv) s, inv rnd s -> nostr s = true ->
+    denoted rnd (abs (snd (it_value rnd s))) = denoted rnd (abs s) /\
+    denoted rnd (abs (snd (it_advance rnd s))) = denoted rnd (abs s).
+Proof. exact denoted_stable. Qed.
+
+(* A clone (where offered) is the identical machine state, hence replays identically. *)
+Theorem C19_clone_replays :
+  forall s c, nostr s = true -> it_clone s = Some c ->
+    c = s /\ abs c = abs s /\ s_clone (abs s) = Some (abs c).
+Proof. exact clone_replays. Qed.
+
+(* Any interleaving of value/advance/reset/clone on the source and its clone:
+   results correspond call by call to the cursor's. *)
+Theorem C19_history_refines :
+  forall (rnd : Q -> fv) ops st cst,
+    srel rnd (fst st) (fst cst) -> srel rnd (snd st) (snd cst) -> forallb prim ops = true ->
+    Forall2 omatch (mrun rnd st ops) (srun rnd cst ops).
+Proof. exact history_refines. Qed.
+
+(* Every constructor result satisfies the invariant and stands at the first element. *)
+Theorem C19_build_fresh :
+  forall (rnd : Q -> fv) d s, build rnd d = Some s ->
+    inv rnd s /\ nostr s = true /\ remaining rnd (abs s) = denoted rnd (abs s).
+Proof. exact build_fresh. Qed.
+
+Theorem C19_buffer_fresh : forall d args, inv_buf (mk_buffer d args).
+Proof. exact mk_buffer_inv. Qed.
+
+(* Linear source in exact arithmetic: len elements, element i = a + i*(b-a)/(len-1)
+   exactly; first = a, last = b, equal steps. *)
+Theorem C19_linear_closed_form :
+  forall len a b m, mk_linear rexact len (Fin a) (Fin b) = Some m ->
+    (2 <= len)%N /\ l_elem m = len /\ l_pos m = 0%N /\
+    forall i, lin_at rexact m i = Fin (lin_closed a b (len - 1) i).
+Proof. exact linear_closed_form. Qed.
+
+Theorem C19_linear_first : forall a b n, (lin_closed a b n 0 == a)%Q.
+Proof. exact lin_closed_first. Qed.
+Theorem C19_linear_last : forall a b n, (0 < n)%N -> (lin_closed a b n n == b)%Q.
+Proof. exact lin_closed_last. Qed.
+Theorem C19_linear_equal_steps : forall a b n i,
+  (lin_closed a b n (i + 1) - lin_closed a b n i == (b - a) / (Z.of_N n # 1))%Q.
+Proof. exact lin_closed_step. Qed.
+
+(* The description parser accepts only texts of the grammar of IterGrammar.v, and only
+   with the count and bounds standing at the named positions; everything else is refused. *)
+Theorem C19_accepted_in_grammar :
+  forall rnd t d, parse_create rnd (Some t) = Some d -> create_form rnd t d.
+Proof. exact create_sound. Qed.
+
+Theorem C19_malformed_refused :
+  forall rnd t, (forall d, ~ create_form rnd t d) -> parse_create rnd (Some t) = None.
+Proof. exact malformed_refused. Qed.
+
+(* ---- non-vacuity *)
+Definition ex_lin : lin := {| l_base := Fin 0; l_step := dyadic 1 (-2); l_elem := 5; l_pos := 2 |}.
+Example C19_ex_inv : inv rnd64 (SLin ex_lin).
+Proof. vm_compute. discriminate. Qed.
+Example C19_ex_remaining :
+  remaining rnd64 (abs (SLin ex_lin)) = [EV (Fin (1#2)); EV (Fin (3#4)); EV (Fin 1)].
+Proof. vm_compute. reflexivity. Qed.
+Example C19_ex_walk :
+  fst (fst (it_walk rnd64 10 (SLin ex_lin) [])) = [Some (Fin (1#2)); Some (Fin (3#4)); Some (Fin 1)].
+Proof. vm_compute. reflexivity. Qed.
+(* binary64: 1/3 is rounded, the count is not *)
+Example C19_ex_rounding :
+  option_map (fun m => (l_elem m, l_step m)) (mk_linear rnd64 4 (Fin 0) (Fin 1))
+  = Some (4%N, Fin (6004799503160661 # 18014398509481984)).
+Proof. vm_compute. reflexivity. Qed.
+(* factor iterator: init, base, base*fact, ... and a reset in the middle *)
+Example C19_ex_factor :
+  mrun rnd64 (Some (SFac (mk_factor (Fin 2) (Fin 3) (Fin 1) 4)), None)
+       [(OWalk, false); (OReset, false); (OAdvance, false); (OClone, false); (OWalk, true)]
+  = [OutW [Some (Fin 1); Some (Fin 2); Some (Fin 6); Some (Fin 18)] WDone; OutR 4; OutA T_d; OutK true;
+     OutW [Some (Fin 2); Some (Fin 6); Some (Fin 18)] WDone].
+Proof. vm_compute. reflexivity. Qed.
+(* "lin(3:0 1)" with the libc answers at the offsets the parser asks *)
+Definition ex_text : text :=
+  {| t_bytes := [108;105;110;40;51;58;48;32;49;41]%N;
+     t_d := [dnone;dnone;dnone;dnone;dnone;dnone;
+             {| IterModel.d_len := 1; d_ovf := false; d_val := Fin 0 |};
+             {| IterModel.d_len := 2; d_ovf := false; d_val := Fin 1 |}];
+     t_u := [unone;unone;unone;unone; {| u_len := 1; u_rng := false; u_val := 3 |}] |}.
+Example C19_ex_parse : parse_create rnd64 (Some ex_text) = Some (PLin 4 (Fin 0) (Fin 1)).
+Proof. vm_compute. reflexivity. Qed.
+Example C19_ex_refuse :
+  parse_create rnd64 (Some {| t_bytes := [108;105;110;40;51;58;48;32;49]%N; t_d := t_d ex_text; t_u := t_u ex_text |}) = None.
+Proof. vm_compute. reflexivity. Qed.
+
+Print Assumptions C19_walk_visits_exactly.
+Print Assumptions C19_walk_of_nothing.
+Print Assumptions C19_past_end_reported.
+Print Assumptions C19_reset_replays.
+Print Assumptions C19_denoted_stable.
+Print Assumptions C19_clone_replays.
+Print Assumptions C19_history_refines.
+Print Assumptions C19_build_fresh.
+Print Assumptions C19_buffer_fresh.
+Print Assumptions C19_linear_closed_form.
+Print Assumptions C19_linear_first.
+Print Assumptions C19_linear_last.
+Print Assumptions C19_linear_equal_steps.
+Print Assumptions C19_accepted_in_grammar.
+Print Assumptions C19_malformed_refused.
